@@ -131,3 +131,79 @@ theorem C14_trait_merge_conflict (self other : TraitAttrCore) (h : self.skipRepe
   simp only [this, if_true]
 
 end O2o
+
+namespace O2o
+
+/-- parsing of each member's own instructions, without any threading -/
+def parseFields (b : Back) (bark : Bool) : List RawField → Nat → Except PErr (List Field)
+  | [], _ => .ok []
+  | n :: rest, i =>
+    match Field.fromSyn b i n bark with
+    | .error e => .error e
+    | .ok f =>
+      match parseFields b bark rest (i + 1) with
+      | .error e => .error e
+      | .ok fs => .ok (f :: fs)
+
+/-- C14 (tie to `Field::multiple_from_syn`): when every member's own instructions parse, the code's loop is exactly
+    "parse each member, then thread the repeat context over the parsed members" — so `C14_fields` describes what
+    `multiple_from_syn` returns; an unterminated second `repeat` is the one diagnostic the threading can raise -/
+theorem C14_multiple_from_syn (b : Back) (bark : Bool) (nodes : List RawField) (i : Nat) (ctx : Context) (acc fs : List Field)
+    (h : parseFields b bark nodes i = .ok fs) :
+    Field.multipleFromSyn b bark nodes i ctx acc =
+      match threadFields fs ctx with
+      | some (out, c) => .ok (acc.reverse ++ out, c)
+      | none => .error (.o2o repeatNotTerminated) := by
+  induction nodes generalizing i ctx acc fs with
+  | nil =>
+    simp only [parseFields, Except.ok.injEq] at h
+    subst h
+    simp [Field.multipleFromSyn, threadFields]
+  | cons n rest ih =>
+    unfold parseFields at h
+    cases hf : Field.fromSyn b i n bark with
+    | error e => simp [hf] at h
+    | ok f =>
+      simp only [hf] at h
+      cases hrest : parseFields b bark rest (i + 1) with
+      | error e => simp [hrest] at h
+      | ok fs' =>
+        simp only [hrest, Except.ok.injEq] at h
+        subst h
+        unfold Field.multipleFromSyn
+        simp only [hf, bind, Except.bind]
+        unfold threadFields
+        cases hstop : f.attrs.stopRepeat <;> simp only [hstop, Bool.false_eq_true, if_false, if_true]
+        all_goals
+          cases hr : f.attrs.repeat_ with
+          | some r =>
+            simp only
+            split
+            · rfl
+            · rw [ih _ _ _ _ hrest]
+              cases threadFields fs' _ with
+              | none => rfl
+              | some p => obtain ⟨o, c⟩ := p; simp [List.reverse_cons, List.append_assoc]
+          | none =>
+            simp only
+            first
+            | (cases hc : ctx.fieldAttrsToRepeat with
+               | none =>
+                 simp only
+                 rw [ih _ _ _ _ hrest]
+                 cases threadFields fs' _ with
+                 | none => rfl
+                 | some p => obtain ⟨o, c⟩ := p; simp [List.reverse_cons, List.append_assoc]
+               | some p =>
+                 obtain ⟨src, perm⟩ := p
+                 simp only
+                 rw [ih _ _ _ _ hrest]
+                 cases threadFields fs' _ with
+                 | none => rfl
+                 | some p => obtain ⟨o, c⟩ := p; simp [List.reverse_cons, List.append_assoc])
+            | (rw [ih _ _ _ _ hrest]
+               cases threadFields fs' _ with
+               | none => rfl
+               | some p => obtain ⟨o, c⟩ := p; simp [List.reverse_cons, List.append_assoc])
+
+end O2o
